@@ -57,7 +57,26 @@ def _raw_programs():
         c = normal.sample(b, 1.0)
         return a, b, c
 
+    FLAG = jnp.asarray(True)
+
+    def cond_static_flag(mu):
+        # the predicate is a closed-over CONCRETE value (a configuration flag): the interpreter sees a concrete branch
+        # index, as it does for every cond when seed(f) runs eagerly
+        y = jax.lax.cond(FLAG, lambda m: normal.sample(m, 1.0) + normal.sample(m, 2.0), lambda m: m * 2.0, mu)
+        z = normal.sample(mu, 1.0)
+        w = normal.sample(mu, 1.0)
+        return y, z, w
+
+    def scan_static_then_sites(mu):
+        # a scan whose inputs are closed-over concrete values, then more sites
+        c, ys = jax.lax.scan(lambda c, x: (c + normal.sample(x, 1.0), c), jnp.float32(0.0), jnp.asarray([0.1, 0.2], dtype=jnp.float32))
+        a = normal.sample(mu, 1.0)
+        b = normal.sample(mu, 1.0)
+        return c, ys, a, b
+
     return [
+        ("raw_cond_static_flag", cond_static_flag, (f32(0.3),), {}),
+        ("raw_scan_static_then_sites", scan_static_then_sites, (f32(0.3),), {}),
         ("raw_two_same", two_same, (f32(0.3),), {}),
         ("raw_lax_cond", lax_cond, (f32(0.3),), {}),
         ("raw_nested_scan", nested_scan, (np.asarray([0.1, 0.2], dtype=np.float32),), {}),
